@@ -1,6 +1,8 @@
 """C04 - saving adds only blanks and absorbs only sub-threshold slivers."""
 from __future__ import annotations
 
+import math
+
 from hypothesis import strategies as st
 
 from vlib import gen, iomodel, tgspec
@@ -148,6 +150,8 @@ def run_case(case):
                     if os.path.exists(fn):
                         raise Violation("rejected-save-wrote-file", f"{what}: raised {type(e).__name__} but left a file")
                     cl.add("override_rejected")
+                    if min(all_times) >= math.nextafter(lo, -math.inf) and max(all_times) <= math.nextafter(hi, math.inf):
+                        cl.add("override_rejected_by_one_ulp")
                     continue
                 raise Violation(f"failed-on-valid-input:{type(e).__name__}", f"{what}: {type(e).__name__}: {e}")
             if outside:
@@ -214,8 +218,13 @@ def cases(draw):
     pt = {"type": "point", "name": "pt", "entries": pts, "minT": span_lo, "maxT": span_hi, "style": "dec"}
     spec = {"tiers": [it, pt], "minT": span_lo, "maxT": span_hi, "style": "dec"}
     case = {"tg": spec, "theta": theta, "min_override": None, "max_override": None}
-    r = draw(st.integers(0, 7))
-    if r == 0:
+    r = draw(st.integers(0, 9))
+    times = [x for tr in spec["tiers"] for e in tr["entries"] for x in e[:-1]]
+    if r == 8 and times and max(times) > 0:
+        case["max_override"] = math.nextafter(max(times), -math.inf)  # one unit in the last place inside the data: still cuts into it
+    elif r == 9 and times:
+        case["min_override"] = math.nextafter(min(times), math.inf)
+    elif r == 0:
         case["max_override"] = span_hi + 1.0
     elif r == 1:
         case["max_override"] = span_hi
